@@ -75,32 +75,6 @@ Definition approx_normal_eq (tol : Q) n A d w alpha s2 p : Prop :=
 Definition approx_normal_eqb (tol : Q) n A d w alpha s2 p : bool :=
   all2 (fun g b => Qleb (Qabs g) (tol * b)) (normal_residual n A d w alpha s2 p) (residual_bound n A d w alpha s2 p).
 
-(** ** nearest neighbour with k = 1 (C01): brute-force arg-min of the squared
-    distance; ties go to the first minimiser (any tie-break gives the same
-    theorem: at a data point of a pairwise-distinct cloud there is no tie) *)
-Definition sqdist (a b : Q * Q) : Q :=
-  (fst a - fst b) * (fst a - fst b) + (snd a - snd b) * (snd a - snd b).
-
-(** index (into [pts]) of the point nearest to [q]; [best] is the current
-    candidate (index, squared distance), [i] the index of the head of [pts] *)
-Fixpoint argmin_from (q : Q * Q) (pts : list (Q * Q)) (i : nat) (best : nat * Q) : nat * Q :=
-  match pts with
-  | [] => best
-  | x :: t => let dx := sqdist q x in
-              argmin_from q t (S i) (if Qltb dx (snd best) then (i, dx) else best)
-  end.
-Definition nearest (q : Q * Q) (pts : list (Q * Q)) : option nat :=
-  match pts with
-  | [] => None
-  | x :: t => Some (fst (argmin_from q t 1 (0%nat, sqdist q x)))
-  end.
-(** KNeighbors(k=1).predict at q: the datum of the nearest data point *)
-Definition knn1_predict (pts : list (Q * Q)) (data : list Q) (q : Q * Q) : option Q :=
-  match nearest q pts with
-  | Some i => Some (nth i data 0)
-  | None => None
-  end.
-
 (** ** Trend: 2-D polynomial of total degree <= N in the code's column order
     [sorted(((i, j) for j in range(N+1) for i in range(N+1-j)), key=sum)]
     (stable sort by i+j: within one total degree, j ascending) *)
